@@ -36,6 +36,10 @@ int UnivariateSeries::compare(const Basic &other) const
 {
     SYMENGINE_ASSERT(is_a<UnivariateSeries>(other))
     const UnivariateSeries &o_ = down_cast<const UnivariateSeries &>(other);
+    if (var_ != o_.var_)
+        return (var_ < o_.var_) ? -1 : 1;
+    if (degree_ != o_.degree_)
+        return (degree_ < o_.degree_) ? -1 : 1;
     return p_.compare(o_.get_poly());
 }
 
